@@ -457,6 +457,7 @@ var _ = entry.NewLamportClock
 type memDag struct {
 	api   *memAPI
 	nodes map[string]format.Node
+	alias map[string]string // another form of an identifier (CIDv1 of the same multihash) -> the form the block is stored under
 	// fault injection for block writes
 	failAdds map[int]bool // the n-th Add (1-based) fails
 	adds     int
@@ -539,7 +540,11 @@ func (d *memDag) Add(_ context.Context, nd format.Node) (err error) {
 
 func (d *memDag) Get(_ context.Context, c cid.Cid) (nd format.Node, err error) {
 	vx.Atomic(func() {
-		n, ok := d.nodes[c.String()]
+		key := c.String()
+		if a, isAlias := d.alias[key]; isAlias {
+			key = a // block stores are keyed by multihash: every form of an identifier retrieves the block
+		}
+		n, ok := d.nodes[key]
 		if !ok {
 			err = errors.New("ipld: could not find node")
 			return
